@@ -333,7 +333,9 @@ class State:
         if name not in self.heap:
             h, a = self.ctx.initial_heap(name)
             self.heap[name] = h
-            self.has[name] = a
+            # objects allocated during the run (oid >= 10^6) have no attribute until it is stored
+            o = z3.Int("o!h")
+            self.has[name] = z3.Lambda([o], z3.And(o < 1_000_000, z3.Select(a, o)))
         return self.heap[name], self.has[name]
 
 
